@@ -263,6 +263,21 @@ def gen_case(rnd, kind):
             s1, s2 = g.symbol(REAL), g.symbol(REAL)
             conj += [app("EQUALS", s1, c_) if g.pct(50) else app("EQUALS", c_, s1), app("EQUALS", s2, s1),
                      app("LT", ("CONST", (REAL, 3), ()), ("POW", (), (g.symbol(REAL), c_)))]
+        if g.pct(35):
+            # the bare trap: one class of two symbols, its representative (the smaller name) bound somewhere below
+            ty = g.choice([BV(2), BV(2), BOOL])
+            lo, hi = sym("b2_0" if ty != BOOL else "p0", ty), sym("b2_1" if ty != BOOL else "p1", ty)
+            rel = g.choice([("BV_ULT", (), (lo, hi)), ("BV_ULT", (), (hi, lo)), ("NOT", (), (("EQUALS", (), (lo, hi)),)),
+                            ("EQUALS", (), (("BV_ADD", (), (lo, ("CONST", (BV(2), 1), ()))), hi))]) if ty != BOOL else \
+                g.choice([("AND", (), (lo, ("NOT", (), (hi,)))), ("IFF", (), (lo, ("NOT", (), (hi,)))), ("OR", (), (("NOT", (), (lo,)), hi))])
+            q_ = (g.choice(["FORALL", "EXISTS"]), (lo[1],), (rel,))
+            p_, r_ = sym("p2", BOOL), g.term(BOOL, 1)
+            wrapped = g.choice([q_, ("ITE", (), (p_, q_, r_)), ("ITE", (), (p_, r_, q_)), ("ITE", (), (q_, p_, r_)),
+                                ("OR", (), (q_, p_)), ("IMPLIES", (), (p_, q_)), ("IFF", (), (q_, p_)),
+                                ("NOT", (), (("AND", (), (p_, q_)),)),
+                                ("EQUALS", (), (("ITE", (), (q_, ("CONST", (INT, 1), ()), ("CONST", (INT, 2), ()))), sym("i0", INT)))])
+            eq_ = ("EQUALS", (), (hi, lo)) if ty != BOOL else ("IFF", (), (hi, lo))
+            conj = [eq_ if g.pct(50) else (eq_[0], (), (lo, hi)), wrapped] + ([g.term(BOOL, 2)] if g.pct(30) else [])
         g.rnd.shuffle(conj)
         t = app("AND", *conj) if len(conj) > 1 else conj[0]
     return t, g, g.cards()
